@@ -995,6 +995,38 @@ def gen_paused_with_batch_at_quit(seed, mode="loop"):
     return sc
 
 
+def gen_paused_subscriber(seed, mode="dispatch"):
+    """C19: the subscriber is PAUSED when the occurrence happens and resumed before the loop run ends (paused modules are sent
+    system notifications like running ones): (a) a loop start with the subscriber paused since before it; (b) a context without
+    any always-running module: the subscriber paused, then the last running module stops - for a moment nothing runs"""
+    r = random.Random(seed * 139 + 107)
+    variant = r.choice(["loop_start", "nothing_running"])
+    sc = Sc("dispatch", "paused subscriber (%s) seed=%d" % (variant, seed))
+    W, D = 1, 2
+    sc.mod(W, "watch", 0, 0)
+    sc.mod(D, "doer", 0, r.choice([0, 4]))
+    sc.cb(W, "evt", "*", [])
+    sc.cb(D, "evt", "*", [])
+    sc.cb(D, "stop", "*", [])
+    tps = [sc.topic(t) for t in ("LIBMODULE_CTX_STARTED", "LIBMODULE_CTX_STOPPED", "LIBMODULE_MOD_STARTED", "LIBMODULE_MOD_STOPPED")]
+    sc.main += [("ctx_register", 0, CTX_PERSIST), ("reg", W), ("reg", D)]
+    for t in tps:
+        sc.main.append(("sub", W, t, 0, sc.ud()))
+    sc.main += [("start", W), ("start", D)]
+    if variant == "loop_start":
+        sc.main += [("pause", W), ("ctx_dispatch", 1), ("ctx_dispatch", 1), ("resume", W)]
+        sc.main += [("ctx_dispatch", 1)] * 3
+    else:
+        sc.main += [("ctx_dispatch", 1), ("ctx_dispatch", 1), ("pause", W), (r.choice(["stop", "pause", "dereg"]), D), ("resume", W)]
+        sc.main += [("ctx_dispatch", 1)] * 3
+    # (one dispatch: it sees the quit request and ends the run; a further one would start a new run)
+    sc.main += [("ctx_quit", r.randrange(1, 100)), ("ctx_dispatch", 1)]
+    sc.main += [("dereg", W), ("dereg", D), ("ctx_deregister",), ("obs_drop", W), ("obs_drop", D), ("quiesce",)]
+    sc.meta["style"] = "main_nokick"
+    finalize_main(sc)
+    return sc
+
+
 def gen_tick_in_flush(seed, mode="loop"):
     """C20: m_ctx_set_tick() called by a handler that the final flush of a loop run invokes (loop-stopped notification) while a
     tick is active"""
@@ -1773,8 +1805,12 @@ def gen_stash_become(seed, mode="loop"):
                 ops.append(("unstash", -1, r.choice(nmax)))
             elif x < 0.8:
                 ops.append(("become", -1, r.randrange(4)))
-            else:
+            elif x < 0.93:
                 ops.append(("unbecome", -1))
+            else:
+                # a full stop/start cycle of the own module inside one handler invocation: it comes back with its original
+                # handler and an empty stash
+                ops += [("stop", -1), ("start", -1), ("sub", -1, tn, nfl, sc.ud()), ("sub", -1, th, SRC_HIGH, sc.ud()), ("fd_reg", -1, 1, 0, sc.ud())]
         return ops
     for n in range(30):
         sc.cb(T, "evt", n, hops() if r.random() < 0.7 else [])
@@ -1824,7 +1860,7 @@ def gen_perms(seed, mode="loop"):
     sc = Sc(mode, "perms seed=%d" % seed)
     driven_skeleton(sc)
     nm = r.randrange(3, 8)
-    names = ["pa", "pb", "pc", "pd"]
+    names = ["pa", "pb", "pc", "pd", "cache", "logger"]      # ("cache" and "logger" share a bucket of the context's module table)
     for i in range(1, nm + 1):
         fl = 0
         for f, pr in ((MOD_DENY_CTX, 0.3), (MOD_DENY_PUB, 0.3), (MOD_DENY_SUB, 0.3), (MOD_PERSIST, 0.25), (MOD_ALLOW_REPLACE, 0.35), (MOD_NAME_DUP, 0.15)):
@@ -2040,6 +2076,12 @@ def gen_tokenbucket(seed, mode="loop"):
 
     rate = r.choice([100, 200, 500, 1000])
     burst = r.choice([1, 2, 3, 5, 10, 20])
+    if r.random() < 0.15:
+        # a very high rate first, then a low one that equals it modulo 2^16 (and modulo 2^8): the new, low rate is the one that counts
+        lo_r = r.choice([10, 100, 200])
+        steps.append([("tb", T, r.choice([65536, 131072, 65536 * 4]) + lo_r, burst)])
+        steps.append([cheap() for _ in range(r.randrange(1, 6))])
+        rate = lo_r
     steps.append([("tb", T, rate, burst)])
     for phase in range(r.randrange(2, 7)):
         x = r.random()
